@@ -501,9 +501,9 @@ func c15corpus() []*c15case {
 
 func runC15(tier string, seed uint64, o *Out) error {
 	rng := NewRNG(seed)
-	ncases, maxRows := 2500, 14
+	ncases, maxRows := 12000, 14
 	if tier == "thorough" {
-		ncases, maxRows = 40000, 16
+		ncases, maxRows = 150000, 16
 	}
 	cases := c15corpus()
 	for i := 0; i < ncases; i++ {
